@@ -252,6 +252,7 @@ func jobReaders(j *jobCtx) {
 	}
 	extraStats["race_detector"] = raceEnabled
 	reps := 3
+	hugeDone := map[string]bool{}
 	for _, u := range jsonUniverses(j) {
 		x0 := u.New()
 		paths := enumStates(u, 60, isMut(x0))
@@ -272,6 +273,16 @@ func jobReaders(j *jobCtx) {
 		if bp := bigStatePath(x0); bp != nil {
 			pick = append(pick, bp) // a large state: position caches, lazily grown tables only show there
 		}
+		// first (fixed cost) a state of thousands of elements, two goroutines per operation
+		if hp := hugeStatePath(x0); hp != nil && !hugeDone[x0.Kind()] {
+			hugeDone[x0.Kind()] = true
+			var x Inst
+			gi := guard("rd", x0.Kind(), "Build", func() { x = replay(u, hp) })
+			if !gi.Panic && x != nil {
+				j.states++
+				readersState(j, rr, x, hugeReadOps(x), 2, 2)
+			}
+		}
 		for _, p := range pick {
 			if budgetExceeded() {
 				extraStats["tour_truncated"] = true
@@ -279,75 +290,212 @@ func jobReaders(j *jobCtx) {
 			}
 			x := replay(u, p)
 			j.states++
-			ops := readOps(x)
-			// The concurrent runs come FIRST and the sequential answers are taken afterwards (read-only operations:
-			// the answers are the same before and after): state that is built lazily on first use - inside the
-			// container or in package-level tables - is then first touched by two goroutines at once.
-			type pairRes struct {
-				a, b       int
-				res        [][]string
-				pan        bool
-				pmsg       string
-				out, races int
-				pure       bool
+			readersState(j, rr, x, readOps(x), reps, 1)
+		}
+	}
+}
+
+// hugeStatePath builds a state of thousands of elements with few calls (bulk operations where the kind has them)
+func hugeStatePath(x0 Inst) []Call {
+	var cs []Call
+	n := 3000
+	switch t := x0.(type) {
+	case *seqInst:
+		vs := make([]int, n)
+		for i := range vs {
+			vs[i] = (i * 7) % 1500
+		}
+		cs = append(cs, Call{Op: "Add", Vs: vs})
+	case *setInst:
+		cs = append(cs, Call{Op: "Add", Vs: rangeInts(n, 0)})
+	case *queInst:
+		if t.kind == "circularbuffer" {
+			return nil // its universes have capacities of a few elements
+		}
+		put := "Enqueue"
+		if queDisc(t.kind) == "lifo" {
+			put = "Push"
+		}
+		for i := 0; i < n; i++ {
+			cs = append(cs, Call{Op: put, V: i % 997})
+		}
+	case *heapInst:
+		if t.h != nil {
+			vs := make([]int, 600) // Values() of a heap costs its size times the size of a level
+			for i := range vs {
+				vs[i] = 10*((i*37)%211) + i%10
 			}
-			var done []pairRes
-			for a := 0; a < len(ops); a++ {
-				for b := a; b < len(ops); b++ {
-					e := Ev{"fam": "rd", "kind": x.Kind(), "op": "Pair", "a": ops[a].name, "b": ops[b].name}
-					fp0 := fullFP(x)
-					rr.newRaces()
-					res := make([][]string, 2)
-					var pan [2]bool
-					ci := invoke(skeletonRd(x, ops[a].name, ops[b].name), func() {
-						var wg sync.WaitGroup
-						start := make(chan struct{})
-						for g, oi := range []int{a, b} {
-							wg.Add(1)
-							go func(g, oi int) {
-								defer wg.Done()
-								defer func() {
-									if recover() != nil {
-										pan[g] = true
-									}
-								}()
-								<-start
-								for r := 0; r < reps; r++ {
-									res[g] = append(res[g], fmt.Sprint(ops[oi].f()))
-								}
-							}(g, oi)
-						}
-						close(start)
-						wg.Wait()
-					})
-					_ = e
-					done = append(done, pairRes{a, b, res, ci.Panic || pan[0] || pan[1], ci.PMsg, ci.Out, rr.newRaces(), fp0 == fullFP(x)})
-				}
-			}
-			// sequential answers
-			seq := make([]string, len(ops))
-			for i, o := range ops {
-				seq[i] = fmt.Sprint(o.f())
-			}
-			same := func(rs []string, want string) bool {
-				for _, r := range rs {
-					if r != want {
-						return false
-					}
-				}
-				return len(rs) == reps
-			}
-			for _, d := range done {
-				e := skeletonRd(x, ops[d.a].name, ops[d.b].name)
-				e["sa"], e["sb"], e["readers"], e["reps"] = seq[d.a], seq[d.b], 2, reps
-				e["panic"], e["pmsg"], e["out"] = d.pan, d.pmsg, d.out
-				e["ra_ok"], e["rb_ok"] = same(d.res[0], seq[d.a]), same(d.res[1], seq[d.b])
-				e["ra"], e["rb"] = first(d.res[0]), first(d.res[1])
-				e["races"], e["pure"] = d.races, d.pure
-				emit(e)
-				distinct["rd|"+x.Kind()+"|"+ops[d.a].name+"|"+ops[d.b].name] = struct{}{}
+			cs = append(cs, Call{Op: "Push", Vs: vs})
+		} else {
+			for i := 0; i < 600; i++ {
+				cs = append(cs, Call{Op: "Enqueue", Vs: []int{10*((i*37)%211) + i%10}})
 			}
 		}
+	case *mapInst:
+		if mapBidi(t.kind) {
+			return nil // the bidi universes are 3 x 3 (values outside would not be probed)
+		}
+		for i := 0; i < n; i++ {
+			cs = append(cs, Call{Op: "Put", I: (i * 13) % n, V: 100 + i%50})
+		}
+	}
+	return cs
+}
+
+func isTreeKind(kind string) bool {
+	return kind == "redblacktree" || kind == "avltree" || kind == "btree"
+}
+
+// read-only operations with small results for huge states: long argument lists (members with repeats: arguments times
+// elements is in the hundreds of thousands), lookups at both ends, whole-container walks reduced to a length or a sum
+func hugeReadOps(x Inst) []readOp {
+	var ops []readOp
+	add := func(name string, f func() any) { ops = append(ops, readOp{name, f}) }
+	sum := func(xs []int) int {
+		t := 0
+		for i, v := range xs {
+			t += (i%7 + 1) * v
+		}
+		return t
+	}
+	args := doubled(rangeInts(0, 150), true) // 300 arguments, all present in every huge state, each twice
+	switch t := x.(type) {
+	case *seqInst:
+		l := t.l
+		add("Contains", func() any { return []bool{l.Contains(args...), l.Contains(append(args[:100:100], 99999)...)} })
+		add("IndexOf", func() any { return []int{l.IndexOf(1499), l.IndexOf(99999)} })
+		add("Get", func() any { v, ok := l.Get(l.Size() - 1); return []any{v, ok} })
+		add("Values", func() any { return sum(l.Values()) })
+		add("String", func() any { return len(l.String()) })
+		add("Iterate", func() any { return len(iterSeq(x)) })
+		add("Enumerable", func() any { return len(fmt.Sprint(enumAll(x))) })
+	case *setInst:
+		s := t.s
+		add("Contains", func() any { return []bool{s.Contains(args...), s.Contains(append(args[:100:100], 99999)...)} })
+		add("Values", func() any { return sum(sortedInts(s.Values())) })
+		add("String", func() any { return len(s.String()) })
+		add("Size", func() any { return s.Size() })
+		switch ss := s.(type) {
+		case *hashset.Set[int]:
+			add("Algebra", func() any { return []int{ss.Union(ss).Size(), ss.Intersection(ss).Size(), ss.Difference(ss).Size()} })
+		case *treeset.Set[int]:
+			add("Algebra", func() any { return []int{ss.Union(ss).Size(), ss.Intersection(ss).Size(), ss.Difference(ss).Size()} })
+		case *linkedhashset.Set[int]:
+			add("Algebra", func() any { return []int{ss.Union(ss).Size(), ss.Intersection(ss).Size(), ss.Difference(ss).Size()} })
+		}
+	case *queInst:
+		q := t.q
+		add("Peek", func() any { v, ok := q.Peek(); return []any{v, ok} })
+		add("Values", func() any { return sum(q.Values()) })
+		add("String", func() any { return len(q.String()) })
+		add("Iterate", func() any { return len(iterSeq(x)) })
+	case *heapInst:
+		add("Peek", func() any { return t.Do(Call{Op: "Peek"}) })
+		add("Values", func() any { return len(fmt.Sprint(t.Do(Call{Op: "Values"}))) })
+		add("Size", func() any { return t.Do(Call{Op: "Size"}) })
+	case *mapInst:
+		m := t.c
+		add("Get", func() any { v, ok := m.Get(2999); w, ok2 := m.Get(99999); return []any{v, ok, w, ok2} })
+		add("Keys", func() any { return sum(sortedInts(m.Keys())) })
+		add("Values", func() any { return sum(sortedInts(vints(m.Values()))) })
+		if !isTreeKind(t.kind) { // the drawing of a tree costs the square of its size (string concatenation)
+			add("String", func() any { return len(m.String()) })
+		}
+		add("Size", func() any { return m.Size() })
+		if jsonDisc(x.Kind()) != "unordered" {
+			add("Iterate", func() any { return len(iterSeq(x)) })
+		}
+	}
+	if j, ok := x.Target().(jsonable); ok {
+		add("ToJSON", func() any { b, err := j.ToJSON(); return fmt.Sprint(len(b), err) })
+	}
+	return ops
+}
+
+// readersState: every pair of the given read-only operations on x, `per` goroutines per operation
+func readersState(j *jobCtx, rr *readersRun, x Inst, ops []readOp, reps, per int) {
+	// The concurrent runs come FIRST and the sequential answers are taken afterwards (read-only operations:
+	// the answers are the same before and after): state that is built lazily on first use - inside the
+	// container or in package-level tables - is then first touched by two goroutines at once.
+	type pairRes struct {
+		a, b       int
+		res        [][]string
+		pan        bool
+		pmsg       string
+		out, races int
+		pure       bool
+	}
+	var done []pairRes
+	for a := 0; a < len(ops); a++ {
+		for b := a; b < len(ops); b++ {
+			e := Ev{"fam": "rd", "kind": x.Kind(), "op": "Pair", "a": ops[a].name, "b": ops[b].name}
+			fp0 := fullFP(x)
+			rr.newRaces()
+			res := make([][]string, 2*per)
+			pan := make([]bool, 2*per)
+			ci := invoke(skeletonRd(x, ops[a].name, ops[b].name), func() {
+				var wg sync.WaitGroup
+				start := make(chan struct{})
+				var who []int
+				for t := 0; t < per; t++ {
+					who = append(who, a, b) // goroutine g runs operation a (g even) or b (g odd)
+				}
+				for g, oi := range who {
+					wg.Add(1)
+					go func(g, oi int) {
+						defer wg.Done()
+						defer func() {
+							if recover() != nil {
+								pan[g] = true
+							}
+						}()
+						<-start
+						for r := 0; r < reps; r++ {
+							res[g] = append(res[g], fmt.Sprint(ops[oi].f()))
+						}
+					}(g, oi)
+				}
+				close(start)
+				wg.Wait()
+			})
+			_ = e
+			anyPan := ci.Panic
+			for _, p := range pan {
+				anyPan = anyPan || p
+			}
+			done = append(done, pairRes{a, b, res, anyPan, ci.PMsg, ci.Out, rr.newRaces(), fp0 == fullFP(x)})
+		}
+	}
+	// sequential answers
+	seq := make([]string, len(ops))
+	for i, o := range ops {
+		seq[i] = fmt.Sprint(o.f())
+	}
+	same := func(rs []string, want string) bool {
+		for _, r := range rs {
+			if r != want {
+				return false
+			}
+		}
+		return len(rs) == reps
+	}
+	for _, d := range done {
+		e := skeletonRd(x, ops[d.a].name, ops[d.b].name)
+		e["sa"], e["sb"], e["readers"], e["reps"] = seq[d.a], seq[d.b], 2*per, reps
+		e["panic"], e["pmsg"], e["out"] = d.pan, d.pmsg, d.out
+		okA, okB := true, true
+		for g := range d.res {
+			if g%2 == 0 {
+				okA = okA && same(d.res[g], seq[d.a])
+			} else {
+				okB = okB && same(d.res[g], seq[d.b])
+			}
+		}
+		e["ra_ok"], e["rb_ok"] = okA, okB
+		e["ra"], e["rb"] = first(d.res[0]), first(d.res[1])
+		e["races"], e["pure"] = d.races, d.pure
+		emit(e)
+		distinct["rd|"+x.Kind()+"|"+ops[d.a].name+"|"+ops[d.b].name] = struct{}{}
 	}
 }
 
